@@ -86,6 +86,11 @@ def generate(rng, tier, ctx):
     for m in range(0, 33):
         for prog in ('F g', 'V g', 'W F g', 'z', 'y', 'D F X V e') + (('N%d F g' % m, 'H F g') if m <= 31 else ()) + (('D A F g',) if 2 * m <= 32 else ()):
             cases.append(('fe_prog B%d %s' % (m, prog), ('fe_bounds', 'mag%d' % m)))
+    # secp256k1_fe_equal called RAW on its documented domain (a: magnitude <= 1, b: magnitude <= 31), b at the extreme of its magnitude
+    for m in range(0, 32):
+        vb = 2 * m * ((1 << 256) - 1) % P
+        for va in (vb, vb ^ 1, 0):
+            cases.append(('fe_prog L%s B%d E' % (h32(va), m), ('fe_equal_raw', 'mag%d' % m)))
     # --- scalars
     subops = ['add', 'mul', 'neg', 'inv', 'invvar', 'half', 'ishigh', 'iszero', 'iseven', 'eq', 'condneg', 'cmov', 'seckey',
               'caddbit', 'sqr', 'split128', 'bits', 'mulshift', 'lambda']
